@@ -1,47 +1,204 @@
 """C18 — method transformers and connectors implement their documented function.
 
 One run = one transformer kind (cfg["kind"]) in one configuration.  Every method the transformer
-requires is a real `Adapter` whose readiness (`.en`) and returned data the driver owns each cycle;
+requires is a real `Adapter` whose readiness (`.en`) and returned data the driver owns each cycle
+(or, in a share of the runs, a stub whose method has a real `validate_arguments` predicate);
 the method the transformer provides is called through a real `AdapterTrans`.  The oracle is the
 combinational relation the statement gives, evaluated on the settled values of every cycle.
+
+How the transformer is built is part of the configuration: through its constructor (the harness
+then defines the required methods) or through the documented factory `X.create(...)` around
+existing target methods (cfg["factory"]); added to the design directly or through
+`Transformer.use(m)` (cfg["use"]).  Map / condition functions are python functions or -- the
+documented alternative -- a `Method` (an `Adapter` stub whose result the driver owns).
 
 What is demanded (and what is deliberately not):
 
 * "runs" of a caller are never demanded beyond the statement: `done => en and model-ready`,
   `en & ready & ~done` is only counted.  Readiness (`<caller>.runnable` while the caller requests) is
   compared only where the statement gives it: MethodFilter with use_condition and a false condition
-  is callable; MethodTryProduct is never blocked by its targets; a lone NonexclusiveWrapper caller is
-  callable iff the target is; nothing that must call a non-ready target is callable.  "Refused
-  although every target is ready" (MethodMap, MethodFilter, MethodProduct, simultaneous
-  NonexclusiveWrapper callers) is only counted.  MethodFilter's default is judged when one was
-  passed; MethodProduct's result is judged when a combiner was passed.
+  is callable; MethodTryProduct is never blocked by the readiness of its targets; a lone
+  NonexclusiveWrapper caller is callable iff the target is; nothing that must call a non-ready target
+  is callable.  "Refused although every target is ready" (MethodMap, MethodFilter, MethodProduct,
+  simultaneous NonexclusiveWrapper callers) is only counted.
   Exceptions, because the statement itself says so: ConnectTrans transfers
   *exactly when* both methods can run (it is the only transaction, nothing can compete);
   MethodTryProduct calls *exactly* the ready targets whenever it runs; a CrossbarConnectTrans
   leaves no ready-ready pair of unused methods -- maximality is a property of the *eager* scheduler
   and is demanded only for sched == "eager"; under "rr" only safety (matching + data) is checked.
+* Documented defaults are judged as documented: MethodFilter without `default` returns zero;
+  MethodProduct without a combiner returns the result of the first target; MethodTryProduct without
+  a combiner returns an empty structure (nothing to judge).
+* A target whose `validate_arguments` rejects the argument "cannot run" with that argument: a
+  transformer that has to call it does not execute (judged: `done => ...`), a rejected call is never
+  executed (judged).  For MethodTryProduct such a target is just not called and not reported as
+  succeeded (judged); whether the product itself is still callable in such a cycle is not documented
+  (counted).  No validating target is put behind NonexclusiveWrapper (its argument depends on the grant).
 * MethodFilter without use_condition and a false condition: whether a non-ready target blocks the
   call is left open by the statement (the code blocks) -- accepted either way, counted.
 * NonexclusiveWrapper with two callers in one cycle: forwarding of the call and of the result is
   checked, the combined argument is not (the statement does not define it).
 * Collector: a result counts as lost only if nothing moved for several cycles while the caller kept
-  asking and an undelivered result exists (the statement has no latency bound).
+  asking and an undelivered result exists (the statement has no latency bound).  Every run ends with
+  a drain tail (targets silent, caller asking) so that the results taken last are judged too.
+
+Layouts (cfg["ilay"], cfg["olay"], ...): JSON lists of [name, spec]; spec = w > 0 (unsigned(w)),
+w < 0 (signed(-w)) or a nested list (struct).  Values are handled per scalar leaf, in the form the
+simulator reports them (signed leaves as negative numbers).
 """
 
 from __future__ import annotations
 
 from itertools import permutations
 
-from ..comp import CompScenario
+from amaranth import Elaboratable, Signal
+
+from ..comp import CompScenario, VAdapter, leaves
 from ..propbase import PropBase, make_plan
 
 KINDS = ["connect", "crossbar", "map", "filter", "product", "tryproduct", "nonexclusive", "collector"]
+TRANSFORMERS = ["map", "filter", "product", "tryproduct", "nonexclusive", "collector"]
 PHASES = ["random", "sweep", "allnot", "flap", "drop", "idle", "allready"]
 STUCK = 4  # Collector: cycles without any movement, caller asking, before an undelivered result is "lost"
+TAIL = 8   # Collector: length of the final drain phase
+RICH_W = [1, 1, 2, 3, 5, 8, 13, 16, 32, 33, 64]
 
 
 def mask(w):
     return (1 << w) - 1
+
+
+# ------------------------------------------------------------------------------------------------
+# layouts: JSON spec <-> method layout <-> scalar leaves
+
+
+def flat(spec, prefix=""):
+    """[(path, width, signed)] of the scalar leaves, in declaration order."""
+    out = []
+    for name, s in spec or []:
+        if isinstance(s, list):
+            out += flat(s, f"{prefix}{name}.")
+        else:
+            out.append((f"{prefix}{name}", abs(s), s < 0))
+    return out
+
+
+def mlayout(spec):
+    from amaranth import signed
+
+    out = []
+    for name, s in spec or []:
+        if isinstance(s, list):
+            out.append((name, mlayout(s)))
+        else:
+            out.append((name, signed(-s) if s < 0 else s))
+    return out
+
+
+def scalar_first(spec):
+    return bool(spec) and not isinstance(spec[0][1], list)
+
+
+def canon(v, w, s):
+    """The w-bit pattern of v as the simulator reports a leaf of that shape."""
+    v &= mask(w)
+    if s and v >> (w - 1):
+        v -= 1 << w
+    return v
+
+
+def getp(x, path):
+    for p in path.split("."):
+        x = x[p]
+    return x
+
+
+def nest(d):
+    out: dict = {}
+    for path, v in d.items():
+        ps = path.split(".")
+        cur = out
+        for p in ps[:-1]:
+            cur = cur.setdefault(p, {})
+        cur[ps[-1]] = v
+    return out
+
+
+def fit(v, w):
+    """The value v as exactly w bits (truncated / extended): `assign` wants equal shapes."""
+    from amaranth import C
+
+    return (v + C(0, w))[:w]
+
+
+def fitl(v, leaf):
+    _, w, s = leaf
+    r = fit(v, w)
+    return r.as_signed() if s else r
+
+
+def rndv(rng, w, s, small=False):
+    if small:
+        v = rng.randrange(4)
+    else:
+        r = rng.random()
+        if r < 0.1:
+            v = 0
+        elif r < 0.2:
+            v = mask(w)
+        elif r < 0.25:
+            v = 1 << (w - 1)
+        else:
+            v = rng.getrandbits(w)
+    return canon(v, w, s)
+
+
+def gen_w(rng):
+    w = rng.choice(RICH_W)
+    return -w if w > 1 and rng.random() < 0.25 else w
+
+
+def gen_layout(rng, names):
+    """A layout outside the two-unsigned-fields family: 0-4 fields, 1-64 bits, signed, nested."""
+    n = 0 if rng.random() < 0.12 else rng.choice([1, 1, 2, 3, 3, 4])
+    out = []
+    for nm in names[:n]:
+        if rng.random() < 0.15:
+            out.append([nm, [["x", gen_w(rng)], ["y", gen_w(rng)]]])
+        else:
+            out.append([nm, gen_w(rng)])
+    return out
+
+
+class VStub(VAdapter):
+    """A free-standing method (for the `create` factories) with a hardware validate_arguments predicate:
+    the first field of the argument must differ from k.  Same body as comp.VAdapter."""
+
+    def __init__(self, i, o, k, name=None):
+        from transactron import Method
+
+        self.iface = Method(name=name, i=i, o=o)
+        self.k = k
+        self.en = Signal()
+        self.done = Signal()
+        self.data_in = Signal(self.iface.layout_out)
+        self.data_out = Signal(self.iface.layout_in)
+        self.first = next(iter(self.iface.layout_in.members))
+
+
+class UseWrap(Elaboratable):
+    """Adds the transformer to its module the documented way: `method = transformer.use(m)`."""
+
+    def __init__(self, tr, scen):
+        self.tr, self.scen = tr, scen
+
+    def elaborate(self, platform):
+        from transactron import TModule
+
+        m = TModule()
+        meth = self.tr.use(m)
+        self.scen.use_ok = meth is self.tr.method
+        return m
 
 
 class Base(CompScenario):
@@ -49,14 +206,93 @@ class Base(CompScenario):
 
     targets: list = []  # adapter names whose readiness is driven
     callers_: list = []  # caller names
+    use_ok = None
+
+    def setup_layouts(self):
+        c = self.cfg
+        self.ispec, self.ospec = c.get("ilay") or [], c.get("olay") or []
+        self.il, self.ol = flat(self.ispec), flat(self.ospec)
+        self.ilm, self.olm = mlayout(self.ispec), mlayout(self.ospec)
 
     def setup_common(self):
         self.sweep = 0
         self.seen_patterns: set = set()
         self.prev_en: dict = {}
         self.prev_req = 0
-        self.hit(f"kind_{self.cfg['kind']}")
+        kind = self.cfg["kind"]
+        self.hit(f"kind_{kind}")
+        if self.cfg.get("factory"):
+            self.hit("built_by_factory")
+            self.hit(f"factory_{kind}")
+        lv = list(self.ol) + (list(self.il) if kind != "collector" else [])
+        for ols in getattr(self, "ols", []):
+            lv += ols
+        if kind != "collector" and not self.il:
+            self.hit("empty_input_layout")
+        if not self.ol:
+            self.hit("empty_output_layout")
+        if any(s for _, _, s in lv):
+            self.hit("signed_field")
+        if any("." in p for p, _, _ in lv):
+            self.hit("nested_field")
+        if any(w >= 33 for _, w, _ in lv):
+            self.hit("wide_field")
+        if any(w == 1 for _, w, _ in lv):
+            self.hit("one_bit_field")
+        if len(self.il) == 1 or len(self.ol) == 1:
+            self.hit("single_field_layout")
+        if len(self.il) >= 3 or len(self.ol) >= 3:
+            self.hit("many_field_layout")
 
+    # -- building ---------------------------------------------------------------------------
+    def ports(self, name, ad):
+        self.add_input(f"{name}.en", ad.en)
+        for path, sig in leaves(ad.data_in):
+            self.add_input(f"{name}.ret.{path}", sig)
+        self.add_obs(f"{name}.done", ad.done)
+        for path, sig in leaves(ad.data_out):
+            self.add_obs(f"{name}.arg.{path}", sig)
+
+    @staticmethod
+    def vk(k, spec):
+        """The rejected value, if the stub can validate at all (first field of the argument is a scalar)."""
+        return k if (k is not None and scalar_first(spec)) else None
+
+    def stub(self, name, ispec, ospec, k=None):
+        """An existing target method (what the `create` factories are given)."""
+        k = self.vk(k, ispec)
+        if k is None:
+            return self.callee(name, None, i=mlayout(ispec), o=mlayout(ospec)).iface
+        ad = VStub(mlayout(ispec), mlayout(ospec), k, name=name)
+        self.top.add(f"vad_{name}", ad)
+        self.ports(name, ad)
+        return ad.iface
+
+    def bind(self, name, method, k=None, ispec=None):
+        """Define a method the transformer requires."""
+        k = self.vk(k, ispec)
+        if k is None:
+            self.callee(name, method)
+        else:
+            self.vcallee(name, method, k)
+
+    def add_dut(self):
+        if self.cfg.get("use"):
+            self.top.add("dut", UseWrap(self.dut, self))
+            self.hit("built_with_transformer_use")
+        else:
+            self.top.add("dut", self.dut)
+
+    def check_use(self):
+        if self.cfg.get("use"):
+            self.expect(self.use_ok is True, "use-returned-other-method",
+                        "Transformer.use(m) did not return the method created by the transformer")
+
+    def post_elab(self, tm):
+        self.check_use()
+        return super().post_elab(tm)
+
+    # -- stimulus ---------------------------------------------------------------------------
     def phase(self, cyc):
         cur = self.cfg["plan"][0]
         for ent in self.cfg["plan"]:
@@ -65,9 +301,6 @@ class Base(CompScenario):
             else:
                 break
         return cur[1], cur[2], cur[0]
-
-    def lay(self, key):
-        return [(n, w) for n, w in self.cfg[key]]
 
     def readiness(self, rng, cyc, n):
         kind, p, start = self.phase(cyc)
@@ -101,12 +334,23 @@ class Base(CompScenario):
             return 1
         return int(rng.random() < self.cfg["pcall"])
 
-    def fill(self, rng, stim, prefix, layout):
-        for f, w in layout:
-            stim[f"{prefix}.{f}"] = self.rnd(rng, f"{prefix}.{f}")
+    def fill(self, rng, stim, prefix, lv):
+        small = rng.random() < 0.12  # all fields small: equal values, values a validating stub rejects
+        for p, w, s in lv:
+            stim[f"{prefix}.{p}"] = rndv(rng, w, s, small)
 
-    def vals(self, d, prefix, layout):
-        return tuple(d.get(f"{prefix}.{f}", 0) for f, _ in layout)
+    def vals(self, d, prefix, lv):
+        return tuple(d.get(f"{prefix}.{p}", 0) for p, _, _ in lv)
+
+    def dvals(self, d, prefix, lv):
+        return {p: d.get(f"{prefix}.{p}", 0) for p, _, _ in lv}
+
+    def wide_cov(self, values, lv):
+        """A full-width value travelled: the top bit of a field wider than 32 bits was set."""
+        for v, (_, w, s) in zip(values, lv):
+            if w >= 33 and (v < 0 or v >> (w - 1)):
+                self.hit("wide_value_with_top_bit_set")
+                return
 
     def readiness_cov(self, stim, req):
         """Fault kinds that fired this cycle, from the applied stimulus alone (replay safe)."""
@@ -140,7 +384,7 @@ class Base(CompScenario):
         judge: which direction of `callable == ready` the statement gives for this transformer --
         "both"; "refusal-counted" (callable although not ready is judged, a refusal although ready is
         only counted under `count`); "none" (both directions only counted).  `done => en & ready` is
-        judged in every mode."""
+        judged in every mode.  ready None: nothing is known about this cycle."""
         en = stim.get(f"{c}.en", 0)
         done = obs[f"{c}.done"]
         if en and ready is not None:
@@ -165,17 +409,21 @@ class ConnectScen(Base):
     def build(self):
         from transactron.lib import ConnectTrans
 
-        self.il, self.ol = self.lay("ilay"), self.lay("olay")
-        self.dut = ConnectTrans(self.il, self.ol)
-        self.top.add("dut", self.dut)
+        self.setup_layouts()
         # optionally a connected method validates its argument (rejects first field == K): the transfer then
         # happens exactly when both are ready *and* accept what the other one returns
-        self.val = self.cfg.get("val") or [None, None]
-        for name, meth, k in (("m1", self.dut.method1, self.val[0]), ("m2", self.dut.method2, self.val[1])):
-            if k is None or not len(meth.layout_in.members):
-                self.callee(name, meth)  # m1 takes il, returns ol; m2 takes ol, returns il
-            else:
-                self.vcallee(name, meth, k)
+        val = self.cfg.get("val") or [None, None]
+        self.val = [self.vk(val[0], self.ispec), self.vk(val[1], self.ospec)]
+        if self.cfg.get("factory"):
+            m1 = self.stub("m1", self.ispec, self.ospec, self.val[0])  # m1 takes il, returns ol
+            m2 = self.stub("m2", self.ospec, self.ispec, self.val[1])  # m2 takes ol, returns il
+            self.dut = ConnectTrans.create(m1, m2)
+            self.top.add("dut", self.dut)
+        else:
+            self.dut = ConnectTrans(self.ilm, self.olm)
+            self.top.add("dut", self.dut)
+            self.bind("m1", self.dut.method1, self.val[0], self.ispec)
+            self.bind("m2", self.dut.method2, self.val[1], self.ospec)
         self.targets = ["m1", "m2"]
         self.setup_common()
         return self.top
@@ -192,9 +440,9 @@ class ConnectScen(Base):
         e1, e2 = self.readiness_cov(stim, 1)
         d1, d2 = obs["m1.done"], obs["m2.done"]
         ok = 1
-        if self.val[0] is not None and self.il:
+        if self.val[0] is not None:
             ok &= int(self.vals(stim, "m2.ret", self.il)[0] != self.val[0])
-        if self.val[1] is not None and self.ol:
+        if self.val[1] is not None:
             ok &= int(self.vals(stim, "m1.ret", self.ol)[0] != self.val[1])
         if not ok and e1 and e2:
             self.hit("connect_refused_by_validate_arguments")
@@ -206,6 +454,7 @@ class ConnectScen(Base):
                         f"method1 got {self.vals(obs, 'm1.arg', self.il)}, method2 returned {self.vals(stim, 'm2.ret', self.il)}")
             self.expect(self.vals(obs, "m2.arg", self.ol) == self.vals(stim, "m1.ret", self.ol), "data-mismatch",
                         f"method2 got {self.vals(obs, 'm2.arg', self.ol)}, method1 returned {self.vals(stim, 'm1.ret', self.ol)}")
+            self.wide_cov(self.vals(obs, "m1.arg", self.il) + self.vals(obs, "m2.arg", self.ol), self.il + self.ol)
         self.visit(("connect", e1, e2, d1), nontrivial=bool(e1 or e2))
 
 
@@ -214,18 +463,31 @@ class CrossbarScen(Base):
         from transactron.lib import CrossbarConnectTrans
 
         c = self.cfg
-        self.il, self.ol = self.lay("ilay"), self.lay("olay")
+        self.setup_layouts()
         self.n1, self.n2 = c["n1"], c["n2"]
-        self.dut = CrossbarConnectTrans(self.n1, self.n2, self.il, self.ol)
-        self.top.add("dut", self.dut)
         self.an = [f"a{i}" for i in range(self.n1)]
         self.bn = [f"b{j}" for j in range(self.n2)]
-        for i, n in enumerate(self.an):
-            self.callee(n, self.dut.methods1[i])
-        for j, n in enumerate(self.bn):
-            self.callee(n, self.dut.methods2[j])
+        xv = c.get("xval") or [[], []]
+        # ka[i]: methods1[i] rejects an argument (= what a methods2 returned) whose first field is ka[i]
+        self.ka = [self.vk(xv[0][i] if i < len(xv[0]) else None, self.ispec) for i in range(self.n1)]
+        self.kb = [self.vk(xv[1][j] if j < len(xv[1]) else None, self.ospec) for j in range(self.n2)]
+        if c.get("factory"):
+            ms1 = [self.stub(n, self.ispec, self.ospec, self.ka[i]) for i, n in enumerate(self.an)]
+            ms2 = [self.stub(n, self.ospec, self.ispec, self.kb[j]) for j, n in enumerate(self.bn)]
+            # "Method | Iterable[Method]": a single method may be passed as it is
+            self.dut = CrossbarConnectTrans.create(ms1[0] if self.n1 == 1 else ms1, ms2[0] if self.n2 == 1 else ms2)
+            self.top.add("dut", self.dut)
+        else:
+            self.dut = CrossbarConnectTrans(self.n1, self.n2, self.ilm, self.olm)
+            self.top.add("dut", self.dut)
+            for i, n in enumerate(self.an):
+                self.bind(n, self.dut.methods1[i], self.ka[i], self.ispec)
+            for j, n in enumerate(self.bn):
+                self.bind(n, self.dut.methods2[j], self.kb[j], self.ospec)
         self.targets = self.an + self.bn
         self.setup_common()
+        if any(k is not None for k in self.ka + self.kb):
+            self.hit("crossbar_with_validating_methods")
         return self.top
 
     def stimulus(self, rng, cyc):
@@ -235,14 +497,13 @@ class CrossbarScen(Base):
             stim[f"{t}.en"] = e[k]
         # returned data: port index in the low bits of the first field, so that equal values of two
         # ports in one cycle (which would only make the matching ambiguous) are rare
-        for i, n in enumerate(self.an):
-            self.fill(rng, stim, f"{n}.ret", self.ol)
-            f, w = self.ol[0]
-            stim[f"{n}.ret.{f}"] = ((rng.getrandbits(w) << 2) | i) & mask(w)
-        for j, n in enumerate(self.bn):
-            self.fill(rng, stim, f"{n}.ret", self.il)
-            f, w = self.il[0]
-            stim[f"{n}.ret.{f}"] = ((rng.getrandbits(w) << 2) | j) & mask(w)
+        for names, lv in ((self.an, self.ol), (self.bn, self.il)):
+            for i, n in enumerate(names):
+                self.fill(rng, stim, f"{n}.ret", lv)
+                if lv:
+                    p, w, s = lv[0]
+                    hi = 0 if rng.random() < 0.2 else rng.getrandbits(w)
+                    stim[f"{n}.ret.{p}"] = canon((hi << 2) | i, w, s)
         return stim
 
     def check(self, cyc, stim, obs):
@@ -256,6 +517,17 @@ class CrossbarScen(Base):
         B = [j for j in range(self.n2) if db[j]]
         self.expect(len(A) == len(B), "crossbar-not-a-matching",
                     f"methods1 executed {A}, methods2 executed {B}: every transfer uses one method of each side once")
+        # a method never executes with an argument its validate_arguments rejects
+        for i in A:
+            if self.ka[i] is not None:
+                got = self.vals(obs, f"a{i}.arg", self.il)[0]
+                self.expect(got != self.ka[i], "ran-with-rejected-argument",
+                            f"a{i} executed with first field {got}, which its validate_arguments rejects", port=f"a{i}")
+        for j in B:
+            if self.kb[j] is not None:
+                got = self.vals(obs, f"b{j}.arg", self.ol)[0]
+                self.expect(got != self.kb[j], "ran-with-rejected-argument",
+                            f"b{j} executed with first field {got}, which its validate_arguments rejects", port=f"b{j}")
         # the set of transfers: a bijection between executed methods consistent with the data seen
         ok = None
         for perm in permutations(B):
@@ -266,12 +538,22 @@ class CrossbarScen(Base):
                 break
         self.expect(ok is not None, "data-mismatch",
                     f"no pairing of executed methods1 {A} with methods2 {B} explains the arguments they received")
+
+        def compat(i, j):  # both methods accept what the other one returns: the pair "can run"
+            if self.ka[i] is not None and self.vals(stim, f"b{j}.ret", self.il)[0] == self.ka[i]:
+                return False
+            if self.kb[j] is not None and self.vals(stim, f"a{i}.ret", self.ol)[0] == self.kb[j]:
+                return False
+            return True
+
+        ready_pairs = [(i, j) for i in range(self.n1) for j in range(self.n2) if ea[i] and eb[j]]
+        if any(not compat(i, j) for i, j in ready_pairs):
+            self.hit("crossbar_pair_refused_by_validate_arguments")
         if self.cfg["sched"] == "eager":
-            left = [(i, j) for i in range(self.n1) for j in range(self.n2)
-                    if ea[i] and eb[j] and not da[i] and not db[j]]
+            left = [(i, j) for i, j in ready_pairs if not da[i] and not db[j] and compat(i, j)]
             self.expect(not left, "crossbar-not-maximal",
                         f"ready pairs {left} left although both methods were unused (ready1={ea} ready2={eb} transfers={ok})")
-        elif any(ea) and any(eb) and not A:
+        elif any(compat(i, j) for i, j in ready_pairs) and not A:
             self.hit("blocked_though_ready")
         if len(A) >= 2:
             self.hit("crossbar_multi_transfer")
@@ -279,6 +561,8 @@ class CrossbarScen(Base):
             self.hit("crossbar_contention")
         if A:
             self.hit("transfer")
+            for i in A:
+                self.wide_cov(self.vals(obs, f"a{i}.arg", self.il), self.il)
         self.visit(("xbar", tuple(en), tuple(ok)), nontrivial=any(ea) and any(eb))
 
 
@@ -286,42 +570,48 @@ class CrossbarScen(Base):
 # one target: MethodMap, MethodFilter, NonexclusiveWrapper
 
 
-def fit(v, w):
-    """The value v as exactly w bits (truncated / zero-extended): `assign` wants equal shapes."""
-    from amaranth import C
-
-    return (v + C(0, w))[:w]
-
-
-def i_transform(kind, k, il):
-    """(layout of the transformed method, amaranth function, python model arg-dict -> target-dict)."""
-    (fa, wa), (fb, wb) = il
-    if kind == "none":
-        return None, il, lambda d: dict(d)
+def i_transform(kind, k, il, ilm):
+    """(what the library is given, leaves and method layout of the transformed method,
+    python model: argument leaf dict -> target argument leaf dict)."""
+    n = len(il)
+    if kind == "none" or not n:
+        return None, il, ilm, lambda d: dict(d)
     if kind == "addc":
-        return (il, lambda m, x: {fa: fit(x[fa] + k, wa), fb: x[fb]}), il, lambda d: {fa: (d[fa] + k) & mask(wa), fb: d[fb]}
-    if kind == "swap":
-        return ((il, lambda m, x: {fa: fit(x[fb], wa), fb: fit(x[fa], wb)}), il,
-                lambda d: {fa: d[fb] & mask(wa), fb: d[fa] & mask(wb)})
+        p0, w0, s0 = il[0]
+        return ((ilm, lambda m, x: nest({p: (fitl(getp(x, p) + k, il[0]) if p == p0 else getp(x, p)) for p, _, _ in il})),
+                il, ilm, lambda d: {**d, p0: canon(d[p0] + k, w0, s0)})
+    if kind == "swap":  # rotation of the fields (two fields: a swap)
+        return ((ilm, lambda m, x: nest({il[j][0]: fitl(getp(x, il[(j + 1) % n][0]), il[j]) for j in range(n)})),
+                il, ilm, lambda d: {il[j][0]: canon(d[il[(j + 1) % n][0]], il[j][1], il[j][2]) for j in range(n)})
     if kind == "pack":
-        ml = [("x", wa + wb)]
-        return ((ml, lambda m, x: {fa: x["x"][:wa], fb: x["x"][wa:]}), ml,
-                lambda d: {fa: d["x"] & mask(wa), fb: (d["x"] >> wa) & mask(wb)})
+        offs, o = [], 0
+        for _, w, _ in il:
+            offs.append(o)
+            o += w
+        ml = [("x", o)]
+        return ((ml, lambda m, x: nest({p: (x["x"][of:of + w].as_signed() if s else x["x"][of:of + w])
+                                        for (p, w, s), of in zip(il, offs)})),
+                [("x", o, False)], ml, lambda d: {p: canon(d["x"] >> of, w, s) for (p, w, s), of in zip(il, offs)})
     raise ValueError(kind)
 
 
-def o_transform(kind, k, ol):
-    (fr, wr), (fs, ws) = ol
-    if kind == "none":
-        return None, ol, lambda d: dict(d)
+def o_transform(kind, k, ol, olm):
+    n = len(ol)
+    if kind == "none" or not n:
+        return None, ol, olm, lambda d: dict(d)
     if kind == "xorc":
-        return (ol, lambda m, x: {fr: x[fr] ^ (k & mask(wr)), fs: x[fs]}), ol, lambda d: {fr: d[fr] ^ (k & mask(wr)), fs: d[fs]}
+        p0, w0, s0 = ol[0]
+        kk = k & mask(w0)
+        return ((olm, lambda m, x: nest({p: (fitl(getp(x, p) ^ kk, ol[0]) if p == p0 else getp(x, p)) for p, _, _ in ol})),
+                ol, olm, lambda d: {**d, p0: canon(d[p0] ^ kk, w0, s0)})
     if kind == "swap":
-        return ((ol, lambda m, x: {fr: fit(x[fs], wr), fs: fit(x[fr], ws)}), ol,
-                lambda d: {fr: d[fs] & mask(wr), fs: d[fr] & mask(ws)})
+        return ((olm, lambda m, x: nest({ol[j][0]: fitl(getp(x, ol[(j + 1) % n][0]), ol[j]) for j in range(n)})),
+                ol, olm, lambda d: {ol[j][0]: canon(d[ol[(j + 1) % n][0]], ol[j][1], ol[j][2]) for j in range(n)})
     if kind == "sum":
-        ml = [("y", max(wr, ws) + 1)]
-        return (ml, lambda m, x: {"y": x[fr] + x[fs]}), ml, lambda d: {"y": d[fr] + d[fs]}
+        wy = max(w for _, w, _ in ol) + 2
+        ml = [("y", wy)]
+        return ((ml, lambda m, x: {"y": sum(getp(x, p) for p, _, _ in ol)}), [("y", wy, False)], ml,
+                lambda d: {"y": sum(d.values()) & mask(wy)})
     raise ValueError(kind)
 
 
@@ -330,12 +620,32 @@ class MapScen(Base):
         from transactron.lib import MethodMap
 
         c = self.cfg
-        self.il, self.ol = self.lay("ilay"), self.lay("olay")
-        it, self.mil, self.ipy = i_transform(c["itr"], c["k"], self.il)
-        ot, self.mol, self.opy = o_transform(c["otr"], c["k"], self.ol)
-        self.dut = MethodMap(self.il, self.ol, i_transform=it, o_transform=ot)
-        self.top.add("dut", self.dut)
-        self.callee("t", self.dut.target)
+        self.setup_layouts()
+        self.im = c["itr"] == "method"
+        self.om = c["otr"] == "method"
+        if self.im:  # "Alternatively, a Method can be passed": it gets the argument record, returns the mapped one
+            mspec = c.get("milay") or []
+            self.mil, self.milm = flat(mspec), mlayout(mspec)
+            it = (self.milm, self.stub("im", mspec, self.ispec))
+            self.hit("map_input_transform_is_method")
+        else:
+            it, self.mil, self.milm, self.ipy = i_transform(c["itr"], c["k"], self.il, self.ilm)
+        if self.om:
+            mspec = c.get("molay") or []
+            self.mol, self.molm = flat(mspec), mlayout(mspec)
+            ot = (self.molm, self.stub("om", self.ospec, mspec))
+            self.hit("map_output_transform_is_method")
+        else:
+            ot, self.mol, self.molm, self.opy = o_transform(c["otr"], c["k"], self.ol, self.olm)
+        self.tk = self.vk(c.get("tval"), self.ispec)
+        if c.get("factory"):
+            tgt = self.stub("t", self.ispec, self.ospec, self.tk)
+            self.dut = MethodMap.create(tgt, i_transform=it, o_transform=ot)
+            self.add_dut()
+        else:
+            self.dut = MethodMap(self.ilm, self.olm, i_transform=it, o_transform=ot)
+            self.add_dut()
+            self.bind("t", self.dut.target, self.tk, self.ispec)
         self.caller("c", self.dut.method)
         self.targets = ["t"]
         self.setup_common()
@@ -345,39 +655,79 @@ class MapScen(Base):
         stim = {"t.en": self.readiness(rng, cyc, 1)[0], "c.en": self.request(rng, cyc)}
         self.fill(rng, stim, "t.ret", self.ol)
         self.fill(rng, stim, "c.i", self.mil)
+        if self.im:
+            stim["im.en"] = int(rng.random() < 0.9)
+            self.fill(rng, stim, "im.ret", self.il)
+        elif self.tk is not None and self.cfg["itr"] == "addc" and rng.random() < 0.12:
+            p, w, s = self.il[0]  # aim at the value the validating target rejects
+            stim[f"c.i.{p}"] = canon(self.tk - self.cfg["k"], w, s)
+        if self.om:
+            stim["om.en"] = int(rng.random() < 0.9)
+            self.fill(rng, stim, "om.ret", self.mol)
         return stim
 
     def check(self, cyc, stim, obs):
         (te,) = self.readiness_cov(stim, stim.get("c.en", 0))
-        # the statement gives no readiness of the map: only `done => target ready` is judged
-        en, done = self.caller_ready_check("c", stim, obs, bool(te), f"target ready={te}", judge="none",
-                                           count="map_refused_though_target_ready")
+        arg = self.dvals(stim, "c.i", self.mil)
+        ret = self.dvals(stim, "t.ret", self.ol)
+        ime = ome = 1
+        if self.im:
+            ime = stim.get("im.en", 0)
+            want = self.dvals(stim, "im.ret", self.il)
+        else:
+            want = self.ipy(arg)
+        if self.om:
+            ome = stim.get("om.en", 0)
+            wanto = self.dvals(stim, "om.ret", self.mol)
+        else:
+            wanto = self.opy(ret)
+        acc = self.tk is None or want[self.il[0][0]] != self.tk
+        if te and ime and ome and not acc and stim.get("c.en", 0):
+            self.hit("map_target_rejected_argument")
+        # the statement gives no readiness of the map: only `done => everything it calls can run` is judged
+        en, done = self.caller_ready_check("c", stim, obs, bool(te and ime and ome and acc),
+                                           f"target ready={te} accepts mapped argument={int(acc)} transform methods ready=({ime},{ome})",
+                                           judge="none", count="map_refused_though_target_ready")
         td = obs["t.done"]
         self.expect(td == done, "target-call-mismatch", f"map executed={done} but target executed={td}")
+        for nm, on in (("im", self.im), ("om", self.om)):
+            if on:
+                self.expect(obs[f"{nm}.done"] == done, "transform-method-call-mismatch",
+                            f"map executed={done} but the transform method {nm} executed={obs[f'{nm}.done']}")
         if done:
             self.hit("call")
-            arg = {f: stim.get(f"c.i.{f}", 0) for f, _ in self.mil}
-            want = self.ipy(arg)
-            got = {f: obs[f"t.arg.{f}"] for f, _ in self.il}
+            if self.im:
+                gota = self.dvals(obs, "im.arg", self.mil)
+                self.expect(gota == arg, "arg-mismatch", f"input transform method received {gota}, call argument was {arg}")
+            got = self.dvals(obs, "t.arg", self.il)
             self.expect(got == want, "arg-mismatch", f"target received {got}, input map of {arg} is {want}")
-            ret = {f: stim.get(f"t.ret.{f}", 0) for f, _ in self.ol}
-            wanto = self.opy(ret)
-            goto = {f: obs[f"c.o.{f}"] for f, _ in self.mol}
+            if self.om:
+                gotr = self.dvals(obs, "om.arg", self.ol)
+                self.expect(gotr == ret, "result-mismatch", f"output transform method received {gotr}, target returned {ret}")
+            goto = self.dvals(obs, "c.o", self.mol)
             self.expect(goto == wanto, "result-mismatch", f"caller received {goto}, output map of {ret} is {wanto}")
-        self.visit(("map", en, te, done), nontrivial=bool(en))
+            self.wide_cov(tuple(got.values()) + tuple(ret.values()), self.il + self.ol)
+        self.visit(("map", en, te, ime, ome, int(acc), done), nontrivial=bool(en))
 
 
 def filter_cond(kind, k, il):
-    (fa, wa), (fb, wb) = il
+    if kind == "const":
+        from amaranth import C
+
+        return (lambda m, x: C(k & 1, 1)), (lambda d: k & 1)
+    p0, w0, s0 = il[0]
+    pl, wl, sl = il[-1]
+    if kind == "eq2" and (len(il) < 2 or w0 < 2 or wl < 2):
+        kind = "bit0"
     if kind == "bit0":
-        return (lambda m, x: x[fa][0]), (lambda d: d[fa] & 1)
+        return (lambda m, x: getp(x, p0)[0]), (lambda d: d[p0] & 1)
     if kind == "eq2":
-        return (lambda m, x: x[fa][:2] == x[fb][:2]), (lambda d: int((d[fa] & 3) == (d[fb] & 3)))
+        return (lambda m, x: getp(x, p0)[:2] == getp(x, pl)[:2]), (lambda d: int((d[p0] & 3) == (d[pl] & 3)))
     if kind == "lt":
-        kk = k & mask(wa)
-        return (lambda m, x: x[fa] < kk), (lambda d: int(d[fa] < kk))
+        kk = k & mask(w0)
+        return (lambda m, x: getp(x, p0) < kk), (lambda d: int(d[p0] < kk))
     if kind == "nonzero":  # a multi-bit value: "non-zero return value is interpreted as true"
-        return (lambda m, x: x[fb]), (lambda d: int(d[fb] != 0))
+        return (lambda m, x: getp(x, pl)), (lambda d: int(d[pl] != 0))
     raise ValueError(kind)
 
 
@@ -386,22 +736,34 @@ class FilterScen(Base):
         from transactron.lib import MethodFilter
 
         c = self.cfg
-        self.il, self.ol = self.lay("ilay"), self.lay("olay")
-        cf, self.cpy = filter_cond(c["cond"], c["k"], self.il)
+        self.setup_layouts()
         self.uc = bool(c["use_condition"])
-        self.default = {f: 0 for f, _ in self.ol}
+        self.cm = c["cond"] == "method" and not self.uc
+        kind = c["cond"]
+        if kind == "method" and self.uc:
+            kind = "const"
+        if not self.il and not self.cm:
+            kind = "const"
+        if self.cm:  # "a Method can be passed as a condition": gets the argument record, returns the condition
+            self.cw = c.get("cw", 1)
+            cf = self.stub("cm", self.ispec, [["c", self.cw]])
+            self.hit("filter_condition_is_method")
+        else:
+            cf, self.cpy = filter_cond(kind, c["k"], self.il)
+        self.default = {p: 0 for p, _, _ in self.ol}
         dflt = None
         if c["default"] is not None:
-            self.default = {f: v & mask(w) for (f, w), v in zip(self.ol, c["default"])}
-            dflt = dict(self.default)
+            self.default = {p: canon(v, w, s) for (p, w, s), v in zip(self.ol, c["default"])}
+            dflt = nest(self.default)
+        self.tk = self.vk(c.get("tval"), self.ispec)
         if c.get("factory"):  # built through the documented factory around an existing target method
-            ad = self.callee("t", None, i=self.il, o=self.ol)
-            self.dut = MethodFilter.create(ad.iface, cf, dflt, use_condition=self.uc)
-            self.top.add("dut", self.dut)
+            tgt = self.stub("t", self.ispec, self.ospec, self.tk)
+            self.dut = MethodFilter.create(tgt, cf, dflt, use_condition=self.uc)
+            self.add_dut()
         else:
-            self.dut = MethodFilter(self.il, self.ol, cf, dflt, use_condition=self.uc)
-            self.top.add("dut", self.dut)
-            self.callee("t", self.dut.target)
+            self.dut = MethodFilter(self.ilm, self.olm, cf, dflt, use_condition=self.uc)
+            self.add_dut()
+            self.bind("t", self.dut.target, self.tk, self.ispec)
         self.caller("c", self.dut.method)
         self.targets = ["t"]
         self.setup_common()
@@ -411,51 +773,80 @@ class FilterScen(Base):
         stim = {"t.en": self.readiness(rng, cyc, 1)[0], "c.en": self.request(rng, cyc)}
         self.fill(rng, stim, "t.ret", self.ol)
         self.fill(rng, stim, "c.i", self.il)
-        if rng.random() < 0.3:  # make "eq2" / "lt" / "nonzero" flip often enough
-            stim[f"c.i.{self.il[1][0]}"] = stim[f"c.i.{self.il[0][0]}"] & mask(self.il[1][1]) if rng.random() < 0.5 else 0
+        if len(self.il) >= 2 and rng.random() < 0.3:  # make "eq2" / "lt" / "nonzero" flip often enough
+            (p0, _, _), (pl, wl, sl) = self.il[0], self.il[-1]
+            stim[f"c.i.{pl}"] = canon(stim[f"c.i.{p0}"], wl, sl) if rng.random() < 0.5 else 0
+        if self.tk is not None and rng.random() < 0.12:
+            p, w, s = self.il[0]  # aim at the value the validating target rejects
+            stim[f"c.i.{p}"] = canon(self.tk, w, s)
+        if self.cm:
+            stim["cm.en"] = int(rng.random() < 0.9)
+            stim["cm.ret.c"] = 0 if rng.random() < 0.45 else max(1, rng.getrandbits(self.cw))
         return stim
 
     def check(self, cyc, stim, obs):
         (te,) = self.readiness_cov(stim, stim.get("c.en", 0))
-        arg = {f: stim.get(f"c.i.{f}", 0) for f, _ in self.il}
-        cond = int(self.cpy(arg))
+        arg = self.dvals(stim, "c.i", self.il)
+        cme = 1
+        if self.cm:
+            cme = stim.get("cm.en", 0)
+            cond = int(stim.get("cm.ret.c", 0) != 0)
+        else:
+            cond = int(self.cpy(arg))
+        acc = self.tk is None or arg[self.il[0][0]] != self.tk
+        tready = bool(te and acc)  # the target can run with this argument
         judge = "refusal-counted"
-        if cond:
+        if not cme:
+            ready = False  # the condition is computed by calling a method that cannot run
+        elif cond:
             # the target has to be called, so it has to be callable; that the filter *is* callable when
             # the target is ready is not stated -> a refusal is counted
-            ready = bool(te)
+            ready = tready
         elif self.uc:
             ready, judge = True, "both"  # "not blocking on the target when use_condition is set"
         else:
-            ready = None if not te else True  # blocking on a non-ready target is left open by the statement
-        en, done = self.caller_ready_check("c", stim, obs, ready, f"cond={cond} target ready={te} use_condition={self.uc}",
+            ready = None if not tready else True  # blocking on a non-ready target is left open by the statement
+        en, done = self.caller_ready_check("c", stim, obs, ready,
+                                           f"cond={cond} target ready={te} accepts argument={int(acc)} use_condition={self.uc}"
+                                           + (f" condition method ready={cme}" if self.cm else ""),
                                            judge=judge, count="filter_refused_though_target_ready")
+        if en and cond and te and not acc:
+            self.hit("filter_target_rejected_argument")
         td = obs["t.done"]
         self.expect(td == (done & cond), "target-call-mismatch",
                     f"filter executed={done} cond={cond} but target executed={td}: target is called exactly when the condition holds")
-        got = {f: obs[f"c.o.{f}"] for f, _ in self.ol}
+        if self.cm:
+            self.expect(obs["cm.done"] == done, "condition-method-call-mismatch",
+                        f"filter executed={done} but the condition method executed={obs['cm.done']}")
+            if done:
+                gota = self.dvals(obs, "cm.arg", self.il)
+                self.expect(gota == arg, "arg-mismatch", f"condition method received {gota}, call argument was {arg}")
+        got = self.dvals(obs, "c.o", self.ol)
         if done and cond:
             self.hit("filter_passed")
-            targ = {f: obs[f"t.arg.{f}"] for f, _ in self.il}
+            targ = self.dvals(obs, "t.arg", self.il)
             self.expect(targ == arg, "arg-mismatch", f"target received {targ}, call argument was {arg}")
-            ret = {f: stim.get(f"t.ret.{f}", 0) for f, _ in self.ol}
+            ret = self.dvals(stim, "t.ret", self.ol)
             self.expect(got == ret, "result-mismatch", f"caller received {got}, target returned {ret}")
+            self.wide_cov(tuple(targ.values()) + tuple(ret.values()), self.il + self.ol)
         if done and not cond:
             self.hit("filter_default_returned")
-            if self.cfg["default"] is not None:  # "returning the default": judged for a default that was given
-                self.expect(got == self.default, "default-mismatch",
-                            f"condition false: caller received {got}, default is {self.default}")
-            elif got != self.default:
-                self.hit("filter_unspecified_default_not_zero")
+            # "returning the default"; "If omitted, zero is returned"
+            self.expect(got == self.default, "default-mismatch",
+                        f"condition false: caller received {got}, default is {self.default}"
+                        + (" (default omitted: zero)" if self.cfg["default"] is None else ""))
+            if self.cfg["default"] is None and self.ol:
+                self.hit("filter_omitted_default_judged")
             if not te:
                 self.hit("filter_cond_false_target_not_ready_ran")
         if en and not cond and not te and not done and not self.uc:
             self.hit("filter_blocked_by_unready_target_without_use_condition")
-        self.visit(("filter", en, te, cond, done), nontrivial=bool(en))
+        self.visit(("filter", en, te, cond, cme, int(acc), done), nontrivial=bool(en))
 
     def post_elab(self, tm):
         if not self.uc:
             return super().post_elab(tm)
+        self.check_use()
         # use_condition: the manager merges the calling transaction with each branch of `condition`, so the
         # caller "could run" iff one of the merged transactions (which call the caller's body as a method) can
         from amaranth import Cat
@@ -463,7 +854,7 @@ class FilterScen(Base):
         at = self.callers["c"]
         ts = [t for t in tm.transactions if any(getattr(mm._body, "owner", None) is at for mm in t._body.method_calls)]
         if not ts:  # the filter was not built with a condition() block: the caller's own transaction decides
-            return super().post_elab(tm)
+            return CompScenario.post_elab(self, tm)
         self.add_obs("c.runnable", Cat(t.runnable for t in ts).any())
 
 
@@ -472,10 +863,18 @@ class NonexScen(Base):
         from transactron.lib import NonexclusiveWrapper
 
         c = self.cfg
-        self.il, self.ol = self.lay("ilay"), self.lay("olay")
-        self.dut = NonexclusiveWrapper(self.il, self.ol)
-        self.top.add("dut", self.dut)
-        self.callee("t", self.dut.target)
+        self.setup_layouts()
+        # no validating target here: the wrapper's argument is selected by the `run` bits of its callers, so a
+        # validate_arguments predicate behind it depends on the very grant it decides (a combinational loop of
+        # the core, C10's business: the design oscillates and cannot be simulated)
+        if c.get("factory"):
+            tgt = self.stub("t", self.ispec, self.ospec)
+            self.dut = NonexclusiveWrapper.create(tgt)
+            self.add_dut()
+        else:
+            self.dut = NonexclusiveWrapper(self.ilm, self.olm)
+            self.add_dut()
+            self.bind("t", self.dut.target)
         self.cn = [f"c{k}" for k in range(c["ncallers"])]
         for n in self.cn:
             self.caller(n, self.dut.method)
@@ -488,11 +887,12 @@ class NonexScen(Base):
         self.fill(rng, stim, "t.ret", self.ol)
         req = self.request(rng, cyc)
         # the wrapper is meant for callers that never call together; simultaneous calls are produced
-        # at a low rate only to see that callers do not exclude each other
+        # at a low rate only to see that callers do not exclude each other: all of them, or any subset
         who = rng.randrange(len(self.cn))
-        both = rng.random() < 0.15
+        both = rng.random() < 0.1
+        sub = rng.getrandbits(len(self.cn)) if rng.random() < 0.12 else 0
         for k, n in enumerate(self.cn):
-            stim[f"{n}.en"] = int(req and (k == who or both))
+            stim[f"{n}.en"] = int(req and (k == who or both or (sub >> k) & 1))
             self.fill(rng, stim, f"{n}.i", self.il)
         return stim
 
@@ -509,19 +909,22 @@ class NonexScen(Base):
             dones.append(d)
         td = obs["t.done"]
         self.expect(td == int(any(dones)), "target-call-mismatch", f"callers executed={dones} but target executed={td}")
-        ret = {f: stim.get(f"t.ret.{f}", 0) for f, _ in self.ol}
+        ret = self.dvals(stim, "t.ret", self.ol)
         for n, d in zip(self.cn, dones):
             if d:
-                got = {f: obs[f"{n}.o.{f}"] for f, _ in self.ol}
+                got = self.dvals(obs, f"{n}.o", self.ol)
                 self.expect(got == ret, "result-mismatch", f"{n} received {got}, target returned {ret}", port=n)
         if sum(dones) == 1:
             self.hit("call")
             n = self.cn[dones.index(1)]
-            arg = {f: stim.get(f"{n}.i.{f}", 0) for f, _ in self.il}
-            targ = {f: obs[f"t.arg.{f}"] for f, _ in self.il}
+            arg = self.dvals(stim, f"{n}.i", self.il)
+            targ = self.dvals(obs, "t.arg", self.il)
             self.expect(targ == arg, "arg-mismatch", f"target received {targ}, {n} called with {arg}", port=n)
+            self.wide_cov(tuple(targ.values()) + tuple(ret.values()), self.il + self.ol)
         if sum(dones) >= 2:
             self.hit("nonexclusive_simultaneous_callers")
+            if sum(dones) < len(self.cn):
+                self.hit("nonexclusive_proper_subset_of_callers")
         self.visit(("nonex", tuple(reqs), te, tuple(dones)), nontrivial=any(reqs))
 
 
@@ -530,33 +933,61 @@ class NonexScen(Base):
 
 
 class ProductScen(Base):
+    try_product = False
+
+    def setup_targets(self):
+        c = self.cfg
+        self.setup_layouts()
+        self.n = c["n"]
+        specs = c.get("olays") or []
+        self.ospecs = [specs[j] if j < len(specs) else self.ospec for j in range(self.n)]
+        self.ols = [flat(s) for s in self.ospecs]
+        if any(s != self.ospecs[0] for s in self.ospecs):
+            self.hit("product_targets_with_different_layouts")
+        tv = c.get("tval") or []
+        self.tks = [self.vk(tv[j] if j < len(tv) else None, self.ispec) for j in range(self.n)]
+        self.targets = [f"t{j}" for j in range(self.n)]
+
+    def build_with(self, cls, comb):
+        if self.cfg.get("factory"):
+            self.tms = [self.stub(t, self.ispec, self.ospecs[j], self.tks[j]) for j, t in enumerate(self.targets)]
+            self.dut = cls.create(self.tms, comb)
+            self.add_dut()
+        else:
+            self.dut = cls(self.ilm, [mlayout(s) for s in self.ospecs], comb)
+            self.add_dut()
+            self.tms = list(self.dut.targets)
+            for j, t in enumerate(self.targets):
+                self.bind(t, self.dut.targets[j], self.tks[j], self.ispec)
+        self.caller("c", self.dut.method)
+
     def build(self):
         from transactron.lib import MethodProduct
 
         c = self.cfg
-        self.il, self.ol = self.lay("ilay"), self.lay("olay")
-        self.n = c["n"]
-        (fr, wr), (fs, ws) = self.ol
+        self.setup_targets()
         comb = None
-        self.mol = self.ol
-        if c["combiner"] == "sumxor":
-            self.mol = [("y", wr + 2), ("z", ws)]
+        self.comb = c["combiner"]
+        if self.comb == "sumxor" and not all(self.ols):
+            self.comb = "last"
+        self.mol = self.ols[0]  # "by default, the return value of the first of the target methods"
+        if self.comb == "sumxor":
+            wy = max(lv[0][1] for lv in self.ols) + 2
+            wz = max(lv[-1][1] for lv in self.ols)
+            self.mol = [("y", wy, False), ("z", wz, False)]
+            ols = self.ols
 
             def fn(m, xs):
                 y, z = 0, 0
-                for x in xs:
-                    y, z = y + x[fr], z ^ x[fs]
-                return {"y": fit(y, wr + 2), "z": fit(z, ws)}
+                for x, lv in zip(xs, ols):
+                    y, z = y + getp(x, lv[0][0]), z ^ getp(x, lv[-1][0])
+                return {"y": fit(y, wy), "z": fit(z, wz)}
 
-            comb = (self.mol, fn)
-        elif c["combiner"] == "last":
-            comb = (self.ol, lambda m, xs: xs[-1])
-        self.dut = MethodProduct(self.il, [self.ol] * self.n, comb)
-        self.top.add("dut", self.dut)
-        self.targets = [f"t{j}" for j in range(self.n)]
-        for j, t in enumerate(self.targets):
-            self.callee(t, self.dut.targets[j])
-        self.caller("c", self.dut.method)
+            comb = ([("y", wy), ("z", wz)], fn)
+        elif self.comb == "last":
+            self.mol = self.ols[-1]
+            comb = (mlayout(self.ospecs[-1]), lambda m, xs: xs[-1])
+        self.build_with(MethodProduct, comb)
         self.setup_common()
         return self.top
 
@@ -565,106 +996,124 @@ class ProductScen(Base):
         e = self.readiness(rng, cyc, self.n)
         for j, t in enumerate(self.targets):
             stim[f"{t}.en"] = e[j]
-            self.fill(rng, stim, f"{t}.ret", self.ol)
+            self.fill(rng, stim, f"{t}.ret", self.ols[j])
         self.fill(rng, stim, "c.i", self.il)
+        if self.il and any(k is not None for k in self.tks) and rng.random() < 0.1:
+            p, w, s = self.il[0]  # aim at a value one of the validating targets rejects
+            stim[f"c.i.{p}"] = canon(rng.choice([k for k in self.tks if k is not None]), w, s)
         return stim
+
+    def accepts(self, stim):
+        if not self.il:
+            return [True] * self.n
+        first = stim.get(f"c.i.{self.il[0][0]}", 0)
+        return [k is None or first != k for k in self.tks]
 
     def check(self, cyc, stim, obs):
         te = self.readiness_cov(stim, stim.get("c.en", 0))
-        # "calls all targets": it cannot run unless all are ready; that it can whenever all are is not stated
-        en, done = self.caller_ready_check("c", stim, obs, all(te), f"targets ready={te}", judge="refusal-counted",
-                                           count="product_refused_though_all_targets_ready")
+        acc = self.accepts(stim)
+        # "calls all targets": it cannot run unless all can run with the argument; that it can whenever all
+        # are ready is not stated
+        en, done = self.caller_ready_check("c", stim, obs, all(te) and all(acc), f"targets ready={te}, accept the argument={acc}",
+                                           judge="refusal-counted", count="product_refused_though_all_targets_ready")
         td = [obs[f"{t}.done"] for t in self.targets]
         self.expect(all(d == done for d in td), "target-call-mismatch",
                     f"product executed={done} but targets executed={td}: all targets are called")
         if en and not all(te) and any(te):
             self.hit("product_blocked_by_some_target")
+        if en and all(te) and not all(acc):
+            self.hit("product_target_rejected_argument")
         if done:
             self.hit("call")
             arg = self.vals(stim, "c.i", self.il)
             for t in self.targets:
                 self.expect(self.vals(obs, f"{t}.arg", self.il) == arg, "arg-mismatch",
                             f"{t} received {self.vals(obs, f'{t}.arg', self.il)}, call argument was {arg}", port=t)
-            rets = [self.vals(stim, f"{t}.ret", self.ol) for t in self.targets]
-            comb = self.cfg["combiner"]
-            if comb == "sumxor":
+            rets = [self.vals(stim, f"{t}.ret", lv) for t, lv in zip(self.targets, self.ols)]
+            if self.comb == "sumxor":
                 z = 0
                 for r in rets:
-                    z ^= r[1]
-                want = (sum(r[0] for r in rets) & mask(self.mol[0][1]), z)
-            elif comb == "last":
+                    z ^= r[-1]
+                want = (sum(r[0] for r in rets) & mask(self.mol[0][1]), z & mask(self.mol[1][1]))
+            elif self.comb == "last":
                 want = rets[-1]
             else:
-                want = None  # no combiner: the statement does not say which result is returned
+                want = rets[0]  # no combiner: the docstring names the first target's result
+                self.hit("product_default_combiner_judged")
             got = self.vals(obs, "c.o", self.mol)
-            if want is None:
-                self.hit("product_no_combiner_result_is_first_target" if got == rets[0]
-                         else "product_no_combiner_result_is_not_first_target")
-            else:
-                self.expect(got == want, "result-mismatch", f"caller received {got}, expected {want} from target results {rets}")
-        self.visit(("product", en, tuple(te), done), nontrivial=bool(en))
+            self.expect(got == want, "result-mismatch", f"caller received {got}, expected {want} from target results {rets}"
+                        + (" (no combiner: result of the first target)" if self.comb is None else ""))
+            self.wide_cov(arg + got, self.il + self.mol)
+        self.visit(("product", en, tuple(te), tuple(acc), done), nontrivial=bool(en))
 
 
-class TryProductScen(Base):
+class TryProductScen(ProductScen):
     def build(self):
         from transactron.lib import MethodTryProduct
-        from amaranth import Cat
+        from amaranth import Cat, signed
 
         c = self.cfg
-        self.il, self.ol = self.lay("ilay"), self.lay("olay")
-        self.n = c["n"]
-        (fr, wr), (fs, ws) = self.ol
+        self.setup_targets()
         comb = None
         self.mol = []
-        if c["combiner"] == "report":
-            self.mol = [("succ", self.n)] + [(f"r{j}", wr) for j in range(self.n)] + [(f"s{j}", ws) for j in range(self.n)]
+        self.report = c["combiner"] == "report"
+        if self.report:
+            ols = self.ols
+            ml = [("succ", self.n)]
+            for j, lv in enumerate(ols):
+                ml += [(f"r{j}_{q}", signed(w) if s else w) for q, (_, w, s) in enumerate(lv)]
 
             def fn(m, xs):
                 d = {"succ": Cat(s for s, _ in xs)}
-                for j, (_, x) in enumerate(xs):
-                    d[f"r{j}"] = x[fr]
-                    d[f"s{j}"] = x[fs]
+                for j, ((_, x), lv) in enumerate(zip(xs, ols)):
+                    for q, (p, _, _) in enumerate(lv):
+                        d[f"r{j}_{q}"] = getp(x, p)
                 return d
 
-            comb = (self.mol, fn)
-        self.dut = MethodTryProduct(self.il, [self.ol] * self.n, comb)
-        self.top.add("dut", self.dut)
-        self.targets = [f"t{j}" for j in range(self.n)]
-        for j, t in enumerate(self.targets):
-            self.callee(t, self.dut.targets[j])
-        self.caller("c", self.dut.method)
-        if c.get("rival"):  # another transaction calls target 0 directly and competes with the product for it
-            self.caller("rv", self.dut.targets[0])
+            comb = (ml, fn)
+        self.build_with(MethodTryProduct, comb)
+        self.rt = None
+        if c.get("rival"):  # another transaction calls one of the targets directly and competes with the product for it
+            self.rt = min(c.get("rival_t", 0), self.n - 1)
+            self.caller("rv", self.tms[self.rt])
+            if self.rt:
+                self.hit("rival_on_other_than_first_target")
         self.setup_common()
         return self.top
 
     def stimulus(self, rng, cyc):
         stim = ProductScen.stimulus(self, rng, cyc)
-        if self.cfg.get("rival"):
+        if self.rt is not None:
             stim["rv.en"] = int(rng.random() < 0.6)
-            for name in self.inp:
-                if name.startswith("rv.i."):
-                    stim[name] = self.rnd(rng, name)
+            self.fill(rng, stim, "rv.i", self.il)
         return stim
 
     def check(self, cyc, stim, obs):
         te = self.readiness_cov(stim, stim.get("c.en", 0))
-        # "the methods which are not ready are not called": no readiness pattern blocks the product
-        en, done = self.caller_ready_check("c", stim, obs, True, f"targets ready={te}")
+        acc = self.accepts(stim)
+        rejecting = [j for j in range(self.n) if te[j] and not acc[j]]
+        # "the methods which are not ready are not called": no readiness pattern blocks the product; whether a
+        # ready target that rejects the argument does is not documented (counted)
+        en, done = self.caller_ready_check("c", stim, obs, None if rejecting else True, f"targets ready={te}")
+        if en and rejecting:
+            self.hit("tryproduct_target_rejected_argument")
+            self.hit("tryproduct_ran_beside_rejecting_target" if done else "tryproduct_blocked_by_rejecting_target")
         td = [obs[f"{t}.done"] for t in self.targets]
-        rv = bool(self.cfg.get("rival") and obs["rv.done"])
+        te = [int(bool(e and a)) for e, a in zip(te, acc)]  # can run with this argument
+        rv = bool(self.rt is not None and obs["rv.done"])
         if rv:
-            # target 0 served the rival in this cycle: the product did not call it (whichever of the two gets a
+            # the target served the rival in this cycle: the product did not call it (whichever of the two gets a
             # contended target is the scheduler's choice) and must not report success for it
-            self.expect(td[0] == 1, "target-call-mismatch", "rival caller of target 0 done, target 0 not executed")
-            self.expect(self.vals(obs, "t0.arg", self.il) == self.vals(stim, "rv.i", self.il), "arg-mismatch",
-                        "target 0 executed for the rival with another argument", port="t0")
-            td = [0] + td[1:]
-            te = [0] + list(te[1:])
+            rt, tn = self.rt, self.targets[self.rt]
+            self.expect(td[rt] == 1, "target-call-mismatch", f"rival caller of target {rt} done, target {rt} not executed")
+            self.expect(self.vals(obs, f"{tn}.arg", self.il) == self.vals(stim, "rv.i", self.il), "arg-mismatch",
+                        f"target {rt} executed for the rival with another argument", port=tn)
+            td = td[:rt] + [0] + td[rt + 1:]
+            te = te[:rt] + [0] + te[rt + 1:]
             self.hit("rival_took_target_from_product" if done else "rival_alone")
         want = [int(bool(done and e)) for e in te]
         self.expect(td == want, "target-call-mismatch",
-                    f"try-product executed={done}, targets ready={te} but executed={td}: exactly the ready targets are called")
+                    f"try-product executed={done}, targets able to run={te} but executed={td}: exactly the ready targets are called")
         if done:
             self.hit("call")
             if 0 < sum(te) < self.n:
@@ -676,15 +1125,18 @@ class TryProductScen(Base):
                 if d:
                     self.expect(self.vals(obs, f"{t}.arg", self.il) == arg, "arg-mismatch",
                                 f"{t} received {self.vals(obs, f'{t}.arg', self.il)}, call argument was {arg}", port=t)
-            if self.mol:
+            if self.report:
                 succ = obs["c.o.succ"]
                 self.expect(succ == sum(d << j for j, d in enumerate(td)), "success-report-mismatch",
                             f"reported success bits {succ:0{self.n}b} (bit j = target j), targets executed={td}")
                 for j, t in enumerate(self.targets):
                     if td[j]:
-                        got = (obs[f"c.o.r{j}"], obs[f"c.o.s{j}"])
-                        ret = self.vals(stim, f"{t}.ret", self.ol)
+                        got = tuple(obs[f"c.o.r{j}_{q}"] for q in range(len(self.ols[j])))
+                        ret = self.vals(stim, f"{t}.ret", self.ols[j])
                         self.expect(got == ret, "result-mismatch", f"combiner saw {got} for {t}, which returned {ret}", port=t)
+                        self.wide_cov(got, self.ols[j])
+            else:
+                self.hit("tryproduct_default_combiner_empty_result")
         self.visit(("try", en, tuple(te), done), nontrivial=bool(en))
 
 
@@ -693,19 +1145,25 @@ class CollectorScen(Base):
         from transactron.lib import Collector
 
         c = self.cfg
-        self.ol = self.lay("olay")
+        self.setup_layouts()
         self.n = c["n"]
-        self.dut = Collector(self.n, self.ol)
-        self.top.add("dut", self.dut)
         self.targets = [f"t{j}" for j in range(self.n)]
-        for j, t in enumerate(self.targets):
-            self.callee(t, self.dut.targets[j])
+        if c.get("factory"):
+            tms = [self.stub(t, [], self.ospec) for t in self.targets]
+            self.dut = Collector.create(tms)
+            self.add_dut()
+        else:
+            self.dut = Collector(self.n, self.olm)
+            self.add_dut()
+            for j, t in enumerate(self.targets):
+                self.callee(t, self.dut.targets[j])
         self.caller("c", self.dut.method)
         self.setup_common()
         self.pending: list = []  # taken from a target, not yet delivered
         self.ever: set = set()
         self.taken = self.delivered = 0
         self.still = 0
+        self.quiet = 0  # trailing cycles in which the caller asked and no target offered anything
         self.tagw = self.ol[0][1]
         return self.top
 
@@ -747,6 +1205,7 @@ class CollectorScen(Base):
                 self.hit("collector_forwarded_same_cycle")
             else:
                 self.hit("collector_delivered_from_buffer")
+            self.wide_cov(got, self.ol)
         if now and avail:
             self.hit("collector_buffered")  # a result taken in this cycle (or an older one) stays behind
         if sum(te) >= 2:
@@ -764,9 +1223,19 @@ class CollectorScen(Base):
                     f"asked for {self.still} cycles in which nothing else moved")
         if en and not done and self.pending:
             self.hit("blocked_though_ready")
+        self.quiet = self.quiet + 1 if (en and not any(te)) else 0
+        if self.quiet and done:
+            self.hit("collector_drained_while_targets_silent")
         self.visit(("coll", en, tuple(te), done, len(now), min(len(self.pending), 2)), nontrivial=bool(now) or bool(done))
 
     def finish(self):
+        # the drain tail: for `quiet` cycles the caller asked and no target offered anything; the collector holds
+        # at most one result per target (none, in fact, but that is not the statement's business)
+        if self.quiet >= STUCK + self.n:
+            self.hit("collector_drain_tail_judged")
+            self.expect(not self.pending, "result-lost",
+                        f"results {self.pending} were taken from targets and never delivered although the caller asked "
+                        f"during the last {self.quiet} cycles, in which no target offered a result")
         if self.pending:
             self.hit("collector_buffered_at_end")
         self.notes["taken"] = self.taken
@@ -784,12 +1253,16 @@ class Prop(PropBase):
         "thorough": {"runs": 12000, "selftest_runs": 32},
     }
     rule = ("one run = one transformer kind (ConnectTrans, CrossbarConnectTrans 1-3x1-3, MethodMap, MethodFilter, "
-            "MethodProduct, MethodTryProduct, NonexclusiveWrapper, Collector) in one configuration (layout widths, "
-            "1-4 targets, map/condition/combiner functions, default, use_condition, scheduler), driven for 60-200 cycles "
+            "MethodProduct, MethodTryProduct, NonexclusiveWrapper, Collector) in one configuration (built by constructor or "
+            "by the create() factory around existing methods, added directly or through Transformer.use; layouts of 0-4 "
+            "fields of 1-64 bits, signed and nested fields; 1-4 targets with equal or different result layouts; "
+            "map/condition/combiner functions or Methods or the documented defaults; default, use_condition, validating "
+            "targets, rival caller of any target, scheduler), driven for 60-200 cycles "
             "by a seeded phase plan over the targets' readiness (random / sweep of all patterns / all-not-ready / "
-            "flapping / dropping one by one / all ready / idle caller); distinct = distinct (configuration, request bits, "
-            "readiness pattern, executed set); non-trivial = the caller requests (connectors: some method is ready)")
-    expected_cov = [f"kind_{k}" for k in KINDS] + [
+            "flapping / dropping one by one / all ready / idle caller; Collector: final drain tail); distinct = distinct "
+            "(configuration, request bits, readiness pattern, executed set); non-trivial = the caller requests "
+            "(connectors: some method is ready)")
+    expected_cov = [f"kind_{k}" for k in KINDS] + [f"factory_{k}" for k in KINDS] + [
         "all_patterns_swept", "all_not_ready_while_requesting", "readiness_dropped_while_requesting", "flapping_target",
         "transfer", "call", "crossbar_multi_transfer", "crossbar_contention",
         "filter_passed", "filter_default_returned", "filter_cond_false_target_not_ready_ran",
@@ -797,25 +1270,44 @@ class Prop(PropBase):
         "product_blocked_by_some_target", "tryproduct_partial", "tryproduct_none_ready",
         "nonexclusive_simultaneous_callers",
         "collector_forwarded_same_cycle", "collector_delivered_from_buffer", "collector_buffered", "collector_contention",
+        # ways of construction and documented argument forms / defaults
+        "built_with_transformer_use", "map_input_transform_is_method", "map_output_transform_is_method",
+        "filter_condition_is_method", "filter_omitted_default_judged", "product_default_combiner_judged",
+        "tryproduct_default_combiner_empty_result", "product_targets_with_different_layouts",
+        # layouts and values
+        "empty_input_layout", "empty_output_layout", "single_field_layout", "many_field_layout", "signed_field",
+        "nested_field", "wide_field", "one_bit_field", "wide_value_with_top_bit_set",
+        # interleavings
+        "connect_refused_by_validate_arguments", "crossbar_pair_refused_by_validate_arguments",
+        "map_target_rejected_argument", "filter_target_rejected_argument", "product_target_rejected_argument",
+        "tryproduct_target_rejected_argument", "nonexclusive_proper_subset_of_callers",
+        "rival_took_target_from_product", "rival_on_other_than_first_target", "collector_drain_tail_judged",
     ]
     real = ["transactron.lib.connectors.ConnectTrans", "transactron.lib.connectors.CrossbarConnectTrans",
             "transactron.lib.connectors.Forwarder", "transactron.lib.transformers.MethodMap",
             "transactron.lib.transformers.MethodFilter", "transactron.lib.transformers.MethodProduct",
             "transactron.lib.transformers.MethodTryProduct", "transactron.lib.transformers.NonexclusiveWrapper",
-            "transactron.lib.transformers.Collector", "transactron.lib.simultaneous.condition",
-            "transactron.lib.adapters.Adapter (targets)", "transactron.lib.adapters.AdapterTrans (callers)",
+            "transactron.lib.transformers.Collector", "transactron.lib.transformers.Transformer.use",
+            "the create() factories of all of them", "transactron.lib.simultaneous.condition",
+            "transactron.lib.adapters.Adapter (targets, transform / condition methods)",
+            "transactron.lib.adapters.AdapterTrans (callers)",
             "TransactionManager + scheduler", "amaranth pysim"]
     stubs = ["cycle driver (readiness patterns, returned data, call arguments)",
-             "python functions mirroring the map / condition / combiner functions given to the transformers"]
+             "python functions mirroring the map / condition / combiner functions given to the transformers",
+             "target stubs with a hardware validate_arguments predicate (comp.VAdapter, VStub)"]
     assumptions = [
         "CrossbarConnectTrans: 'transfers exactly when both can run' is read as: no pair of ready, unused methods of "
-        "the two sides is left in a cycle (maximal matching); demanded only under the eager scheduler, which runs every "
+        "the two sides (each accepting what the other returns) is left in a cycle (maximal matching); demanded only under "
+        "the eager scheduler, which runs every "
         "runnable non-conflicting transaction -- under round-robin only safety (matching + data) is checked",
         "MethodFilter without use_condition: blocking on a non-ready target while the condition is false is accepted either way",
         "Collector: a result is reported lost only after 4 cycles without any movement while the caller asks",
+        "a target that rejects the argument (validate_arguments) cannot run with it: transformers that must call it do not "
+        "execute; MethodTryProduct does not call it and does not report it; whether MethodTryProduct itself stays callable "
+        "is not documented and only counted",
     ]
-    search_space = ("transformer kinds x configurations x per-cycle readiness patterns of up to 6 adapters, arguments and "
-                    "returned data")
+    search_space = ("transformer kinds x ways of construction x layouts x configurations x per-cycle readiness patterns of "
+                    "up to 6 adapters, arguments and returned data")
 
     def gen_config(self, rng, tier, idx):
         big = tier == "thorough"
@@ -825,49 +1317,85 @@ class Prop(PropBase):
         wr, ws = rng.choice([4, 5, 8]), rng.choice([1, 3, 6])
         cfg["ilay"] = [["a", wa], ["b", wb]]
         cfg["olay"] = [["r", wr], ["s", ws]]
+        if rng.random() < 0.45:
+            cfg["ilay"] = gen_layout(rng, "abcd")
+        if rng.random() < 0.45:
+            cfg["olay"] = gen_layout(rng, "rstu")
+        ilay, olay = cfg["ilay"], cfg["olay"]
         cfg["pcall"] = rng.choice([0.5, 0.8, 0.95, 1.0])
+        cfg["factory"] = int(rng.random() < 0.5)
+        if kind in TRANSFORMERS and rng.random() < 0.2:
+            cfg["use"] = 1
         phases = list(PHASES)
+
+        def tval(p=0.3):
+            return rng.choice([0, 0, 1, 2, 3]) if rng.random() < p and scalar_first(ilay) else None
+
         if kind == "connect" and rng.random() < 0.5:
             # one or both connected methods validate their argument: 0 (most interesting: the value an argument
             # has while nothing is assigned to it) or another small value of the first field is rejected
             cfg["val"] = [rng.choice([None, 0, 0, rng.randint(1, 3)]), rng.choice([None, 0, 0, rng.randint(1, 3)])]
         if kind == "crossbar":
             cfg["n1"], cfg["n2"] = rng.randint(1, 3), rng.randint(1, 3)
-            cfg["ilay"][0][1] = max(wa, 6)
-            cfg["olay"][0][1] = max(wr, 6)
+            for lay in (ilay, olay):  # the first field carries the port index: at least 6 bits, unsigned scalar
+                if lay:
+                    w = lay[0][1]
+                    lay[0][1] = rng.choice([6, 8, 33]) if isinstance(w, list) else max(abs(w), 6)
+            if rng.random() < 0.4:
+                cfg["xval"] = [[rng.choice([None, None, 0, 1, 2]) for _ in range(cfg["n1"])],
+                               [rng.choice([None, None, 0, 1, 2]) for _ in range(cfg["n2"])]]
         elif kind == "map":
-            cfg["itr"] = rng.choice(["none", "addc", "swap", "pack"])
-            cfg["otr"] = rng.choice(["none", "xorc", "swap", "sum"])
+            cfg["itr"] = rng.choice(["none", "addc", "swap", "pack", "method", "method"])
+            cfg["otr"] = rng.choice(["none", "xorc", "swap", "sum", "method", "method"])
             cfg["k"] = rng.randint(1, 255)
+            if cfg["itr"] == "method":
+                cfg["milay"] = rng.choice([ilay, [["x", 9]], gen_layout(rng, "efgh")])
+            if cfg["otr"] == "method":
+                cfg["molay"] = rng.choice([olay, [["y", 9]], gen_layout(rng, "vwxy")])
+            cfg["tval"] = tval()
         elif kind == "filter":
-            cfg["cond"] = rng.choice(["bit0", "eq2", "lt", "nonzero"])
-            cfg["k"] = rng.randint(1, 255)
             cfg["use_condition"] = int(rng.random() < 0.5)
-            cfg["factory"] = int(rng.random() < 0.5)
-            cfg["default"] = None if rng.random() < 0.35 else [rng.randint(1, 255), rng.randint(1, 63)]
-        elif kind == "product":
-            cfg["n"] = rng.randint(1, 4)
-            cfg["combiner"] = rng.choice([None, "sumxor", "last"])
-        elif kind == "tryproduct":
-            cfg["n"] = rng.randint(1, 4)
-            cfg["combiner"] = rng.choice([None, "report", "report"])
-            cfg["rival"] = int(rng.random() < 0.35)
+            cfg["cond"] = rng.choice(["bit0", "eq2", "lt", "nonzero"])
+            if not cfg["use_condition"] and rng.random() < 0.4:  # with use_condition "condition must not be a Method"
+                cfg["cond"] = "method"
+            if not ilay:
+                cfg["cond"] = "const" if cfg["use_condition"] else "method"
+            cfg["cw"] = rng.choice([1, 1, 3])
+            cfg["k"] = rng.randint(1, 255)
+            cfg["default"] = None if rng.random() < 0.35 else [rng.getrandbits(64) | 1 for _ in flat(olay)]
+            cfg["tval"] = tval()
+        elif kind in ("product", "tryproduct"):
+            n = cfg["n"] = rng.randint(1, 4)
+            if kind == "product":
+                cfg["combiner"] = rng.choice([None, "sumxor", "last"])
+            else:
+                cfg["combiner"] = rng.choice([None, "report", "report"])
+                cfg["rival"] = int(rng.random() < 0.35)
+                cfg["rival_t"] = rng.randrange(n)
+            if rng.random() < 0.35:  # every target has its own result layout
+                cfg["olays"] = [olay] + [
+                    gen_layout(rng, "rstu") if rng.random() < 0.6 else [["r", rng.choice([4, 5, 8])], ["s", rng.choice([1, 3, 6])]]
+                    for _ in range(n - 1)]
+            if rng.random() < 0.3 and scalar_first(ilay):
+                cfg["tval"] = [rng.choice([None, None, 0, 1, 2, 3]) for _ in range(n)]
         elif kind == "nonexclusive":
             cfg["ncallers"] = rng.randint(1, 3)
         elif kind == "collector":
             cfg["n"] = rng.randint(1, 4)
-            cfg["olay"][0][1] = 12  # unique tags: 4 * cycles + target < 4096
+            cfg["olay"] = [["r", 12]] + olay[1:]  # unique tags: 4 * cycles + target < 4096
             phases += ["drain", "drain"]
         cycles = rng.randint(60, 200 if not big else 320)
         cfg["cycles"] = cycles
         cfg["plan"] = make_plan(rng, cycles, phases, min_len=5, max_len=24 if kind != "crossbar" else 70)
+        if kind == "collector":  # every run ends with a drain tail: targets silent, caller asking
+            cfg["plan"] = [e for e in cfg["plan"] if e[0] < cycles - TAIL] + [[cycles - TAIL, "drain", 1.0]]
         return cfg
 
     def make(self, cfg):
         return SCENS[cfg["kind"]](cfg)
 
     def features(self, cfg, viol):
-        f = {"transformer": cfg["kind"]}
+        f = {"transformer": cfg["kind"], "factory": int(bool(cfg.get("factory")))}
         if cfg["kind"] == "filter":
             f["use_condition"] = cfg["use_condition"]
             f["cond"] = cfg["cond"]
@@ -888,6 +1416,11 @@ class Prop(PropBase):
             c = dict(cfg)
             c["sched"] = "eager"
             yield c
+        for key in ("use", "factory", "tval", "xval", "val", "olays"):
+            if cfg.get(key):
+                c = dict(cfg)
+                c[key] = None if key in ("tval", "xval", "val", "olays") else 0
+                yield c
 
 
 PROP = Prop()
